@@ -445,5 +445,19 @@ Section Machine.
     end.
 End Machine.
 
+(* The return-data buffer the caller sees after a callee frame has ended (opCall / opCallCode / opDelegateCall /
+   opStaticCall `return ret, nil`; opCreate / opCreate2 return the callee's data only for ErrExecutionReverted):
+   a message call leaves its output, successful or reverted (nothing when it faulted); a creation leaves data only
+   when the initcode reverted -- success, oversized or unpayable runtime code, faults in the initcode, depth, balance
+   and address-collision failures all leave it empty. *)
+Inductive frame_end :=
+| FCallOk (out : list Z) | FCallRevert (out : list Z) | FCallFail
+| FCreateOk | FCreateRevert (out : list Z) | FCreateFail.
+Definition rd_after (e : frame_end) : list Z :=
+  match e with
+  | FCallOk o | FCallRevert o | FCreateRevert o => o
+  | FCallFail | FCreateOk | FCreateFail => []
+  end.
+
 Definition run_impl := call impl_op valid_jumpdest.
 (* run_impl hash E P c input fuel gas *)
